@@ -94,6 +94,9 @@ type Contract struct {
 	Skip      string               // not verified, with the reason (listed in the evidence)
 	Trusted   bool
 	Inline    bool // force inlining at call sites (no modular use)
+	Rely      []*Clause // interference block: what steps of other goroutines may do to the shared state
+	Guarantee []*Clause // interference block: what every step of this goroutine must respect
+	Concurrent *SExpr   // func contract: `concurrent Name(args)` - run under the named interference
 	NoPanic   bool
 	File      string
 	Line      int
@@ -463,7 +466,7 @@ func (db *SpecDB) loadFile(path, pkgShort string, slashAt bool) error {
 		pos := fmt.Sprintf("%s:%d", path, nums[i])
 		word, rest := splitWord(ln)
 		switch word {
-		case "func", "callback", "iface", "extern":
+		case "func", "callback", "iface", "extern", "interference":
 			key, params, results := parseHeader(rest)
 			if word == "func" && pkgShort != "" {
 				switch {
@@ -517,6 +520,28 @@ func (db *SpecDB) loadFile(path, pkgShort string, slashAt bool) error {
 				}
 				curLoop.Invariants = append(curLoop.Invariants, cl)
 			}
+		case "rely", "guarantee":
+			if cur == nil || cur.Kind != "interference" {
+				return fmt.Errorf("%s: %s outside an interference block", pos, word)
+			}
+			cl, err := parseClause(rest, pos)
+			if err != nil {
+				return err
+			}
+			if word == "rely" {
+				cur.Rely = append(cur.Rely, cl)
+			} else {
+				cur.Guarantee = append(cur.Guarantee, cl)
+			}
+		case "concurrent":
+			e, err := parseExpr(rest, pos)
+			if err != nil {
+				return err
+			}
+			if e.Kind != "call" {
+				return fmt.Errorf("%s: concurrent expects Name(args)", pos)
+			}
+			cur.Concurrent = e
 		case "skip":
 			cur.Skip = strings.TrimSpace(rest)
 		case "refines":
